@@ -378,5 +378,6 @@ def plan(tier, seed):
     for ly in ("retry", "throttle", "both"):
         # delegate.submit() raising inside the layer's own worker thread
         items.append(dict(scenario="refused", params=dict(layer=ly, calls=3), bounds=dict(P=0 if q else 1)))
-        items.append(dict(scenario="refused", params=dict(layer=ly, calls=2, cancel=True), bounds=dict(P=1 if q else 2, post_release=True)))
+        if ly != "both":
+            items.append(dict(scenario="refused", params=dict(layer=ly, calls=2, cancel=True), bounds=dict(P=1 if q else 2, post_release=True, max_paths=3000 if q else 60000)))
     return items
